@@ -192,12 +192,66 @@ def encoder(ctx):
          'the active roll is not painted with 1 over [start_frame, end_frame) x (pitch - min_pitch) from frames_from_times(start_time, end_time)')
 
 
+def silent_start(ctx, fi):
+  """Location-independent: "with onset predictions a note begins only at a predicted onset" - for a pitch that is *not* sounding the
+  start condition is the onset prediction of the frame itself.  Only for a pitch that is already sounding does the previous frame
+  matter (a fresh onset restarts the note).  A start of a possibly silent pitch that is guarded by a rising-edge quantity
+  (onsets[i - 1], np.roll / np.diff of the onsets, or a name computed from one) misses the note when the onset lasts several
+  frames and the pitch was silenced - e.g. by a predicted offset - in the earlier of them."""
+  fn = fi.node
+  edge_names = set()
+
+  def edge(x):
+    for n in ast.walk(x):
+      if isinstance(n, ast.Subscript) and 'onset' in norm_text(n.value) and any(
+          isinstance(b, ast.BinOp) and isinstance(b.op, ast.Sub) and U.const_value(b.right) == 1 for b in ast.walk(n.slice)):
+        return True
+      if isinstance(n, ast.Call) and (dotted(n.func) or '').split('.')[-1] in ('roll', 'diff') and any('onset' in norm_text(a) for a in n.args):
+        return True
+      if isinstance(n, ast.Name) and n.id in edge_names:
+        return True
+    return False
+  changed = True
+  while changed:
+    changed = False
+    for s in ast.walk(fn):
+      if isinstance(s, ast.Assign) and len(s.targets) == 1 and isinstance(s.targets[0], ast.Name) and s.targets[0].id not in edge_names and edge(s.value):
+        edge_names.add(s.targets[0].id)
+        changed = True
+  scopes = [fn] + [d for d in ast.walk(fn) if isinstance(d, ast.FunctionDef) and d is not fn]
+  seen = set()
+  for sc in scopes[1:] + scopes[:1]:
+    for s in U.walk_stmts(sc):
+      if id(s) in seen or not (isinstance(s, ast.Assign) and len(s.targets) == 1 and isinstance(s.targets[0], ast.Subscript) and norm_text(s.targets[0].value) == 'pitch_start_step'):
+        continue
+      seen.add(id(s))
+      conds = [(U.expand_locals(sc, t, at=s), p) for t, p in U.path_conditions(sc, s)]
+      flat = []
+      for t, p in conds:      # a temporary may expand to a conjunction
+        if isinstance(t, ast.BoolOp) and isinstance(t.op, ast.And) and p:
+          flat.extend((v_, True) for v_ in t.values)
+        elif isinstance(t, ast.BoolOp) and isinstance(t.op, ast.Or) and not p:
+          flat.extend((v_, False) for v_ in t.values)
+        else:
+          flat.append((t, p))
+      conds = flat
+      key = norm_text(s.targets[0].slice)
+      sounding = any(isinstance(t, ast.Compare) and len(t.ops) == 1 and norm_text(t.comparators[0]) == 'pitch_start_step' and norm_text(t.left) == key and
+                     ((isinstance(t.ops[0], ast.In) and pol) or (isinstance(t.ops[0], ast.NotIn) and not pol)) for t, pol in conds)
+      edges = [t for t, _p in conds if edge(t) and not (isinstance(t, ast.Compare) and isinstance(t.ops[0], (ast.Is, ast.IsNot)))]
+      ok = sounding or not edges
+      ctx.ob('DEC/silent-pitch-start', fi, s, ok, 'a %s pitch starts a note %s' % ('sounding' if sounding else 'silent', 'on a fresh onset' if edges else 'without looking at the previous frame') if ok else
+             'a pitch that is not known to be sounding starts a note only if %s, a quantity derived from the previous frame\'s onset: a predicted onset that lasts several frames does not '
+             'start a note on a pitch silenced in its earlier frame' % ' and '.join(norm_text(t) for t in edges), construct='start condition of a silent pitch', definite=True)
+
+
 def decoder(ctx):
   fi = ctx.func(SL + ':pianoroll_to_note_sequence')
   fi = Canon(fi, roles.discover(fi, {
       'pitch_start_step': lambda fn: roles.assigned_where(fn, lambda v, st: isinstance(v, ast.Dict) and not v.keys),
   }, required=False))
   fn = fi.node
+  silent_start(ctx, fi)
   fl = [s for s in fn.body if isinstance(s, ast.Assign) and isinstance(s.targets[0], ast.Name) and isinstance(s.value, ast.BinOp) and isinstance(s.value.op, ast.Div) and
         norm_text(s.value.right) == 'frames_per_second']
   ok = len(fl) == 1 and U.const_value(fl[0].value.left) == 1
